@@ -36,8 +36,9 @@ def record(tracker_factory, es_factory, e, scale_exp, deltas, k):
     if not finite:
         return ev
     mk = (F(mean_f) / F(s) - c) * 2 ** 23         # exact rational arithmetic on the double results
-    ev["mean_k"] = int(math.floor(mk))
-    ev["vq"] = int(math.floor(F(var_f) / (F(s) * F(s)) * 2 ** 14))
+    # clamp wildly wrong results so that TLC's 32-bit arithmetic cannot overflow (the clamped value still violates the bound)
+    ev["mean_k"] = max(-65000000, min(65000000, int(math.floor(mk))))
+    ev["vq"] = max(-2000000, min(2000000, int(math.floor(F(var_f) / (F(s) * F(s)) * 2 ** 14))))
     if es_factory is not None and k * n <= 23:
         es = es_factory(2.0 ** -k)
         for v in vs:
@@ -48,6 +49,11 @@ def record(tracker_factory, es_factory, e, scale_exp, deltas, k):
             return ev
         r = F(es_f) / F(s)
         ip = math.floor(r)
+        T = 2 ** (e - k * n) * (2 ** k - 1) ** n
+        ip_c = max(c - T - 100, min(c - T + 100, int(ip)))        # clamp (see above)
+        if ip_c != ip:
+            r = F(ip_c)
+            ip = ip_c
         ev["ip"] = int(ip)
         ev["fq"] = int(math.floor((r - ip) * Q))
         ev["has_es"] = True
